@@ -1,5 +1,5 @@
 (* C27/Examples.v — concrete instances (non-vacuity) and the refutation witnesses. *)
-From ZV Require Import Base.Bytes Base.WinnowFacts C26.Desc C26.Tree C26.Msg C26.Std C27.Model C28.Model C26.Model.
+From ZV Require Import Base.Bytes Base.Res Base.WinnowFacts C26.Desc C26.Tree C26.Msg C26.Std C27.Model C28.Model C26.Model.
 From ZV Require Import C28.Spec C26.Spec C27.Spec C26.Facts C26.Proofs C28.Proofs C27.Proofs C27.Reader C27.ReadBack C26.Examples C28.Examples.
 
 (* a description with doc comments: plain, multi-line with blank lines around, and one containing "--" *)
